@@ -487,6 +487,32 @@ def refusals(ctx):
         ctx.expect_raises("C05.refused.curl_dimension", lambda: v.curl, unchanged=[v],
                           what={"nvdim": 3, "ndim": 4, "mapping": mp,
                                 "all_components_mapped": True})
+    # more components than axes, every AXIS covered by a component of its own (what a plane
+    # cut of a 3-d vector field looks like): the surplus component does not fit the operator
+    if nd <= 3:
+        nv = int(rng.integers(nd + 1, 5))
+        lab = label_list(rand_labels(rng, nv), nv)
+        order = [int(x) for x in rng.permutation(nv)]
+        surplus = gen.pick(rng, [None, "nowhere", "off_" + names[0]])
+        mp = {lab[c]: (names[j] if j < nd else surplus) for j, c in enumerate(order)}
+        try:
+            v = fld(nv, vdims=lab, vdim_mapping=gen.shuffle_keys(rng, mp))
+        except Exception:  # noqa: BLE001 - a mapping the constructor refuses is no input
+            v = None
+            ctx.event("surplus_mapping_rejected_at_construction")
+        if v is not None:
+            what = {"nvdim": nv, "ndim": nd, "mapping": mp, "all_axes_covered": True}
+            ctx.expect_raises("C05.refused.div_dimension", lambda: v.div, unchanged=[v], what=what)
+            if nd == 3:
+                ctx.expect_raises("C05.refused.curl_dimension", lambda: v.curl, unchanged=[v],
+                                  what=what)
+        # the same reached through the library: a plane cut keeps all components
+        if nd >= 2 and all(k >= 1 for k in n):
+            lab = label_list(rand_labels(rng, nd), nd)
+            full = fld(nd, vdims=lab, vdim_mapping={lab[j]: names[j] for j in range(nd)})
+            cut = full.sel(names[int(rng.integers(0, nd))])
+            ctx.expect_raises("C05.refused.div_dimension", lambda: cut.div, unchanged=[cut],
+                              what={"nvdim": nd, "ndim": nd - 1, "plane_cut": True})
     # nvdim == ndim but components not mapped onto the mesh axes
     labels = label_list(rand_labels(rng, nd), nd)
     good = {labels[j]: names[j] for j in range(nd)}
